@@ -5,27 +5,62 @@ from oblib import ob
 BOUNDS = {"quick": "", "thorough": ""}
 ASSUMPTIONS = []
 
+P = "jsontext"
 # call kinds (zz18Call)
 ISVALID, FORMAT, COMPACT, INDENT, CANON, APPEND, APPENDSTR, DECLOOP, ENCLOOP, STREAMDEC, CLONE = range(11)
 NAMES = ["IsValid", "Format", "Compact", "Indent", "Canonicalize", "AppendFormat", "AppendFormatStr", "decLoop", "encLoop", "streamDec", "Clone"]
+ANY = -1
 
 
-def hist(L, a, b, **kw):
+def nm(op):
+    return "any" if op < 0 else NAMES[op]
+
+
+def hist(L, a, b, alpha=3, **kw):
     (opA, optA, tA) = a
     (opB, optB, tB) = b
-    L.append(ob("hist/A=%s,o%d,%s/B=%s,o%d,%s" % (NAMES[opA], optA, tA, NAMES[opB], optB, tB), "jsontext", "VerifC18Hist",
-                [opA, optA, tA, 3, opB, optB, tB, 3], **kw))
+    kw.setdefault("covers", ["A-ok", "A-fails"])
+    L.append(ob("hist/A=%s,o%s,%s/B=%s,o%d,%s" % (nm(opA), "any" if optA < 0 else optA, tA, nm(opB), optB, tB), P, "VerifC18Hist",
+                [opA, optA, tA, alpha, opB, optB, tB, alpha], **kw))
 
 
 def obligations(tier):
     q = tier == "quick"
     L = []
-    if os.environ.get("C18_TRY"):
-        hist(L, (ISVALID, 1, '{"?":1,"?":2}'), (ISVALID, 0, '{"?":1,"?":2}'))
-        hist(L, (FORMAT, 4, '{"?":{"?":'), (FORMAT, 3, '???'))
-        hist(L, (CANON, 0, '{"?":1,"?":2}'), (CANON, 0, '[{"?":1},'))
-        hist(L, (DECLOOP, 0, '{"?":{"?":'), (DECLOOP, 0, '??'))
-        hist(L, (ENCLOOP, 0, '{"?":{"?":'), (APPEND, 0, '??'))
-        hist(L, (STREAMDEC, 0, '{"?":{"?":'), (APPENDSTR, 0, '??'))
-        return L
+    only = os.environ.get("C18_ONLY", "")
+    # ---- hist: A = any call kind, any of the option sets {1,4,7,0}, on templates that end on every kind of exit
+    TA = ['{"?":1,"?":2}', '{"?":{"?":', '[{"?":1},', '???'] + ([] if q else ['{"?":[{"?":1}],"?":{}}', '[{"?":1,"?":{', '????', '{"?":1}?'])
+    TB = [(ISVALID, 0, '{"?":1,"?":2}'), (FORMAT, 0, '{"?":1,"?":2}'), (FORMAT, 3, '[{"?":1}]'), (CANON, 0, '{"?":2,"?":1}'),
+          (APPEND, 5, '???'), (DECLOOP, 0, '{"?":{"?":'), (ENCLOOP, 0, '{"?":1,"?":2}'), (INDENT, 0, '[?,?]'), (STREAMDEC, 0, '{"?":?}')]
+    if not q:
+        TB += [(COMPACT, 0, ' ? ?'), (APPENDSTR, 6, '"?",?'), (ISVALID, 2, '???'), (FORMAT, 4, '{"?":[?]}'), (CANON, 1, '{"?":1,"?":{"?":1}}'),
+               (DECLOOP, 1, '[{"?":1},'), (ENCLOOP, 3, '[{"?":?'), (ISVALID, 0, '????'), (FORMAT, 0, '????')]
+    for tb in TB:
+        for ta in TA:
+            hist(L, (ANY, ANY, ta), tb)
+    # ---- hist3: two earlier calls of any kind / option set
+    for (opB, optB, tB) in ([(ISVALID, 0, '{"?":1}'), (FORMAT, 3, '[?]')] if q else [(ISVALID, 0, '{"?":1}'), (FORMAT, 3, '[?]'), (CANON, 0, '{"?":1}'), (DECLOOP, 0, '{"?":')]):
+        for (t1, t2) in ([('{"?":', '[?')] if q else [('{"?":', '[?'), ('{"?":1}', '{"?":{'), ('??', '{"?":1,')]):
+            L.append(ob("hist3/A1=any,%s/A2=any,%s/B=%s,o%d,%s" % (t1, t2, NAMES[opB], optB, tB), P, "VerifC18Hist3", [t1, t2, 3, opB, optB, tB, 3], covers=["B-ok", "B-fails"]))
+    # ---- alias
+    AL = [(APPEND, 0, '[?,"?"]'), (APPENDSTR, 3, '{"?":?}'), (CLONE, 0, '???'), (FORMAT, 3, '[?,?]'), (CANON, 0, '{"?":2,"?":1}'), (INDENT, 0, '{"?":[?]}'), (COMPACT, 0, ' [ ? ] ')]
+    BL = [(FORMAT, 4, '{"?":[1,2,3]}'), (ISVALID, 0, '[?,?]')] if q else [(FORMAT, 4, '{"?":[1,2,3]}'), (ISVALID, 0, '[?,?]'), (CANON, 0, '{"?":2,"?":1}'), (APPEND, 3, '[[?]]'), (ENCLOOP, 0, '[?,?')]
+    for (opA, optA, tA) in AL:
+        for (opB, optB, tB) in BL:
+            L.append(ob("alias/A=%s,o%d,%s/B=%s,o%d,%s" % (NAMES[opA], optA, tA, NAMES[opB], optB, tB), P, "VerifC18Alias", [opA, optA, tA, 3, opB, optB, tB, 3], covers=["nonempty"]))
+    for (oA, tA, oB, tB) in [(0, '[?,?]', 3, '{"?":?}'), (4, '{"?":[?]}', 0, '??')]:
+        L.append(ob("aliasB/A=o%d,%s/B=o%d,%s" % (oA, tA, oB, tB), P, "VerifC18AliasB", [oA, tA, 3, oB, tB, 3], covers=["nonempty"]))
+    # ---- Reset of public coders: tmpl1, opt1, reader/writer kind 1, calls1, tmpl2, opt2, kind 2, calls2
+    RD = [('{"?":{"?":', 0, 0, 3, '{"?":?}', 0, 0, 3), ('[{"?":1},', 1, 1, 3, '{"?":1,"?":2}', 0, 0, 2), ('{"?":1,"?":2}', 1, 0, 2, '[?,?', 0, 1, 3), ('??', 0, 1, 2, '{"?":1,"?":2}', 0, 1, 2)]
+    if not q:
+        RD += [('{"?":{"?":', 1, 1, 4, '{"?":?}', 0, 1, 3), ('[[?,{"?":', 0, 0, 4, '[{"?":?}]', 0, 0, 4), ('???', 2, 0, 3, '???', 0, 0, 3)]
+    for r in RD:
+        L.append(ob("reset/dec/%s,o%d,r%d,k%d/then/%s,o%d,r%d,k%d" % r, P, "VerifC18ResetDec", list(r), covers=["end", "first-use-ended-in-error", "first-use-left-nested"]))
+    RE = [('{"?":{"?":', 0, 0, '{"?":?}', 0, 0, False), ('[{"?":1},', 1, 1, '{"?":1,"?":2}', 0, 0, True), ('{"?":1,"?":2}', 4, 0, '[?,{"?":1}]', 3, 1, False), ('[?', 0, 1, '{"?":1,"?":2}', 0, 1, True)]
+    if not q:
+        RE += [('{"?":{"?":', 1, 1, '{"?":?}', 0, 1, True), ('[[?,{"?":', 4, 0, '[{"?":?}]', 0, 0, False), ('???', 5, 0, '???', 3, 0, False)]
+    for r in RE:
+        L.append(ob("reset/enc/%s,o%d,w%d/then/%s,o%d,w%d/values=%d" % r, P, "VerifC18ResetEnc", list(r), covers=["end", "first-use-left-nested"]))
+    if only:
+        L = [o for o in L if only in o["id"]]
     return L
